@@ -124,10 +124,25 @@ impl<'tcx> Cx<'tcx> {
         let _ = write!(s, "],\"ty\":{}}}", esc(&self.ty(cur.ty)));
         s
     }
+    fn ty_const_json(&self, ct: ty::Const<'tcx>) -> String {
+        if let ty::ConstKind::Param(p) = ct.kind() {
+            return format!("{{\"cparam\":{}}}", esc(&p.name.to_string()));
+        }
+        if let Some(v) = ct.try_to_target_usize(self.tcx) {
+            return format!("{}", v);
+        }
+        "null".to_string()
+    }
     fn konst(&self, owner: DefId, c: &mir::ConstOperand<'tcx>) -> String {
         let ty = c.const_.ty();
         let te = ty::TypingEnv::post_analysis(self.tcx, owner);
         let mut s = format!("{{\"k\":\"const\",\"ty\":{}", esc(&self.ty(ty)));
+        if let Const::Ty(_, ct) = c.const_ {
+            if let ty::ConstKind::Param(p) = ct.kind() {
+                let _ = write!(s, ",\"cparam\":{}}}", esc(&p.name.to_string()));
+                return s;
+            }
+        }
         if let ty::FnDef(d, args) = ty.kind() {
             let _ = write!(s, ",\"fn\":{},\"raw\":{}", esc(&self.path(*d)), esc(&with_no_trimmed_paths!(self.tcx.def_path_str_with_args(*d, args))));
             s.push('}');
@@ -338,6 +353,11 @@ impl<'tcx> Cx<'tcx> {
                 };
                 format!("{{\"k\":\"agg\",\"agg\":{},\"ops\":[{}]}}", k, o.join(","))
             }
+            Rvalue::Repeat(op, ct) => format!(
+                "{{\"k\":\"repeat\",\"a\":{},\"len\":{}}}",
+                self.operand(owner, body, op),
+                self.ty_const_json(*ct)
+            ),
             other => format!("{{\"k\":\"other\",\"s\":{}}}", esc(&format!("{:?}", other))),
         }
     }
@@ -432,13 +452,30 @@ impl<'tcx> Cx<'tcx> {
                         }
                         let trait_of = self.tcx.trait_of_assoc(d).map(|t| self.path(t));
                         let ga: Vec<String> = gargs.types().map(|x| esc(&self.ty(x))).collect();
+                        let mut ca: Vec<String> = Vec::new();
+                        {
+                            let mut g = Some(self.tcx.generics_of(d));
+                            while let Some(gen) = g {
+                                for prm in gen.own_params.iter() {
+                                    if let ty::GenericParamDefKind::Const { .. } = prm.kind {
+                                        if let Some(arg) = gargs.get(prm.index as usize) {
+                                            if let Some(ct) = arg.as_const() {
+                                                ca.push(format!("[{},{}]", esc(&prm.name.to_string()), self.ty_const_json(ct)));
+                                            }
+                                        }
+                                    }
+                                }
+                                g = gen.parent.map(|pd| self.tcx.generics_of(pd));
+                            }
+                        }
                         format!(
-                            "{{\"decl\":{},\"raw\":{},\"resolved\":{},\"trait\":{},\"local\":{},\"gargs\":[{}]}}",
+                            "{{\"decl\":{},\"raw\":{},\"resolved\":{},\"trait\":{},\"local\":{},\"cargs\":[{}],\"gargs\":[{}]}}",
                             esc(&self.path(d)),
                             esc(&raw),
                             resolved.map(|r| esc(&self.path(r))).unwrap_or("null".into()),
                             trait_of.map(|t| esc(&t)).unwrap_or("null".into()),
                             resolved.map(|r| r.is_local()).unwrap_or(d.is_local()),
+                            ca.join(","),
                             ga.join(",")
                         )
                     } else {
